@@ -124,6 +124,7 @@ func reportProp(prop, tier string, seed int, runs []*HarnessRun, known []KnownFi
 			"counterexamples": len(h.Cex), "inconclusive": len(h.Incon), "bounds": h.Spec.Bounds, "outside": h.Spec.Outside,
 			"schedule_forks": h.SchedForks, "schedule_truncated": h.SchedTruncated, "feasibility_queries": h.FeasQueries,
 			"covers": h.Covers,
+			"unreached_obligation_ids": unreached(h),
 		}
 		perHarness = append(perHarness, ph)
 	}
@@ -220,4 +221,16 @@ func indent(s string) string {
 		ls = ls[len(ls)-30:]
 	}
 	return "    " + strings.Join(ls, "\n    ")
+}
+
+// unreached: constant obligation ids of the harness source that no explored
+// path evaluated (vacuity report; error-path-only assertions are expected here).
+func unreached(h *HarnessRun) []string {
+	out := []string{}
+	for _, id := range h.StaticIDs {
+		if h.ObligationIDs[id] == 0 {
+			out = append(out, id)
+		}
+	}
+	return out
 }
